@@ -141,7 +141,13 @@ def mask_grid_data_array(mask: xarray.Dataset, data_array: xarray.DataArray) -> 
             logger.debug(
                 "Masking data array %r with mask %r",
                 data_array.name, mask_name)
-            new_data_array = cast(xarray.DataArray, data_array.where(mask_data_array, other=fill_value))
+            # The mask carries copies of the coordinate variables.
+            # Only the mask values are wanted here, where() would otherwise
+            # attach those coordinates to every variable it masks - including
+            # to the coordinate variables themselves when a dataset stores them
+            # as plain variables, which can not be turned back in to a dataset.
+            mask_values = mask_data_array.drop_vars(list(mask_data_array.coords))
+            new_data_array = cast(xarray.DataArray, data_array.where(mask_values, other=fill_value))
             new_data_array.attrs = data_array.attrs
             new_data_array.encoding = data_array.encoding
             return new_data_array
